@@ -71,12 +71,12 @@ def _(c):
                 n += 1
                 if _kw(call, 'expected_dev') != 'self.manifest_device':
                     bad.append((q, call.lineno))
-        call = _calls(_fn(repo, 'ManifestRecursiveLoader.assert_path_verifies'), 'verify_path')
-        for cl in call:
-            n += 1
-            if _kw(cl, 'expected_dev') != 'self.manifest_device':
-                bad.append(('assert_path_verifies', cl.lineno))
-        return (not bad and n == 6), {'sites': n, 'bad': bad}
+        for q in ('ManifestRecursiveLoader.assert_path_verifies', 'ManifestRecursiveLoader.verify_path'):
+            for cl in _calls(_fn(repo, q), 'verify_path'):
+                n += 1
+                if _kw(cl, 'expected_dev') != 'self.manifest_device':
+                    bad.append((q, cl.lineno))
+        return (not bad and n == 7), {'sites': n, 'bad': bad}
     c.const('every-file-update-and-check-is-told-the-manifest-device', devices, props=['C16'])
 
     def mtime_only_in_scan(repo):
